@@ -5,6 +5,7 @@ import (
 	"math"
 	"reflect"
 	"strings"
+	"unsafe"
 
 	"github.com/PapaCharlie/go-restli/v2/codegen/utils"
 	"verif/harness/gen"
@@ -95,7 +96,14 @@ func (b *Bridge) Set(rv reflect.Value, t Ty, v *V) error {
 			if v.K != "f32" {
 				return bad()
 			}
-			rv.SetFloat(float64(math.Float32frombits(uint32(v.Bits))))
+			if rv.CanAddr() {
+				// the exact bit pattern: SetFloat goes through float64, which quiets a
+				// signalling NaN (0x7FBE3C45 -> 0x7FFE3C45) and would make the harness, not the
+				// library, hash other bits than the ones the model is asked about
+				*(*uint32)(unsafe.Pointer(rv.UnsafeAddr())) = uint32(v.Bits)
+			} else {
+				rv.SetFloat(float64(math.Float32frombits(uint32(v.Bits))))
+			}
 		case "f64":
 			if v.K != "f64" {
 				return bad()
@@ -241,6 +249,9 @@ func (b *Bridge) Get(rv reflect.Value, t Ty) *V {
 		case "i64":
 			return VI64(rv.Int())
 		case "f32":
+			if rv.CanAddr() {
+				return &V{K: "f32", Bits: uint64(*(*uint32)(unsafe.Pointer(rv.UnsafeAddr())))}
+			}
 			return VF32(float32(rv.Float()))
 		case "f64":
 			return VF64(rv.Float())
